@@ -353,7 +353,7 @@ def _root_local_of(body, op):
     return l
 
 
-def rule_r7(facts, col):
+def rule_r7(facts, col, rule_id="C16.R7"):
     """restarting a repetition seeks to where the data starts - the position every constructor left the file at (sibling
     agreement between the constructors' initial positioning and work()'s rewind, through the stored fields)"""
     from ..mir import self_field_path
@@ -448,12 +448,12 @@ def rule_r7(facts, col):
                                 probs.append("%s leaves the file at %s but work() rewinds to %s (= %s there)" % (
                                     xb.name, show(pp)[:40], show(twp)[:40], show(pv)[:40]))
             if probs:
-                col.bad("C16.R7", key, body.where(bb),
+                col.bad(rule_id, key, body.where(bb),
                         "the position a new repetition starts reading from differs from where a constructor positioned the data: %s - "
                         "every repetition after the first emits the bytes in front of the data (container headers, metadata) instead "
                         "of the samples" % "; ".join(sorted(set(probs))), {})
             elif ncons:
-                col.ok("C16.R7", key, body.where(bb), "rewind target agrees with the initial positioning in %d constructor(s)" % ncons)
+                col.ok(rule_id, key, body.where(bb), "rewind target agrees with the initial positioning in %d constructor(s)" % ncons)
 
 
 def rule_r8(facts, col):
@@ -526,6 +526,48 @@ def rule_r8(facts, col):
                     col.ok("C16.R8", key, body.where(edge[0]), "read()==0 without another repetition leads to EOF")
 
 
+def rule_r9(facts, col, rule_id="C16.R9", scope=None):
+    """end-of-data is a statement about the source, never about the reader: an EOF verdict of a work() body is not reached through
+    a zero / shortness test of a quantity computed from the *output* window's length unless that window is established non-empty
+    on the path (with a full output `min(room, left) == 0` says nothing about `left`)"""
+    from . import c09
+    from .. import effects
+    for body in facts.impl_bodies(BLOCK_TRAIT, "work"):
+        if body.from_derive or (scope is not None and not scope(body)):
+            continue
+        k = 0
+        for bb, verdict, e in effects.verdict_defs(body):
+            if verdict != "EOF":
+                continue
+            key = "%s:EOF#%d" % (body.q, k)
+            k += 1
+            lb = c09.window_lower_bounds(body, bb, facts)
+            bad = None
+            for f in facts_at(body, bb):
+                rel = f[0]
+                xs = []
+                if rel in ("IntEq",) and f[2] == 0:
+                    xs = [f[1]]
+                elif rel in ("Eq", "Lt", "Le", "Gt", "Ge"):
+                    xs = [f[1], f[2]]
+                elif rel in ("Bool", "BoolVal") and f[2] is True and f[1] is not None and (getattr(f[1], "q", None) or "").split("::")[-1] == "is_empty":
+                    xs = [f[1]]
+                for x in xs:
+                    if x is None:
+                        continue
+                    for y in walk(x):
+                        w = c09.len_of_window(y)
+                        if w and w[1] == "W" and lb.get(w[0], 0) < 1:
+                            bad = (w[0], f)
+            if bad:
+                col.bad(rule_id, key, body.where(bb),
+                        "EOF is returned behind a test of a quantity computed from the length of the output window of self.%s, which is "
+                        "not established non-empty on this path: with the output full the test succeeds whatever the source still "
+                        "holds, and the stream is declared finished with data unread" % bad[0], {})
+            else:
+                col.ok(rule_id, key, body.where(bb), "no dependence on a possibly-empty output window")
+
+
 def run(ctx):
     facts = ctx.facts("default")
     ctx.anchor("C16", REPEAT_ADT in facts.adts, "struct Repeat")
@@ -538,6 +580,9 @@ def run(ctx):
     rule_r6(facts, ctx)
     rule_r8(facts, ctx)
     ctx.floor("C16.R8", 6, "done()/again() outcomes of the three finite sources + read()==0 of File/Tcp sources")
+    rb = repeat_blocks(facts)
+    rule_r9(facts, ctx, scope=lambda b: b.self_adt in rb)
+    ctx.floor("C16.R9", 5, "EOF verdicts of the three finite sources (8 today)")
     rule_r7(facts, ctx)
     ctx.floor("C16.R7", 2, "rewinds of FileSource and SigMFSource")
     ctx.floor("C16.R6", 2, "again() in FileSource::work (read()==0) and SigMFSource::work (left == 0)")
